@@ -16,7 +16,7 @@ SITES = {
     'SF_Compt': ('q_Compt_arr', lambda x: x),
     'ComptonProfile': ('pz_ComptonProfiles', lambda x: math.exp(x) - 1.0),
 }
-EXTRA = ['ComptonProfile_Partial', 'CSb_Photo_Partial']     # correspondence only (no site theorem yet)
+EXTRA = ['ComptonProfile_Partial', 'CSb_Photo_Partial']     # site theorems in Props/C02b.lean; searched in search2()
 FRACS = (0.0, 0.137, 0.5, 0.863)
 ENDS = (1e-12, 1e-9, 0.9e-7, 1.1e-7, 1e-6, 1e-3)
 KNOWN_SHAPE = {'Photo:96'}
@@ -25,6 +25,7 @@ class C02(Check):
     id = 'C02'
     module = 'Xrl.Props.C02'
     namespace = 'Xrl.C02'
+    extra_modules = [('Xrl.Props.C02b', 'Xrl.C02')]
     functions = sorted(SITES) + EXTRA + ['splint']
     nonvacuity = ['no_extrapolation_full_fails', 'wit']
     assumptions = ['site theorems assume the shape predicate vecOkB of the table triple (non-decreasing knots, count inside the vectors); '
@@ -112,6 +113,8 @@ class C02(Check):
             # the property's own reading of "never extrapolates": beyond the last knot the call must fail
             if cls == 'high' and core.parse_answer(co)['kind'] == 'ok' and core.parse_answer(co)['slot'] == 'E':
                 viol.append(dict(key='splint-slack', got=co, expected='fails', what='%s: accepted and extrapolated beyond the last knot (x - x_n <= 1e-7 in transformed space)' % cl))
+        n2, v2, st2 = self.search2(ctx)
+        viol += v2; stats.update(st2)
         # de-duplicate class-keyed violations
         seen = set(); out = []
         for v in viol:
@@ -121,6 +124,85 @@ class C02(Check):
                           'non-trivial = distinct calls for which the specification expects a value' % ('' if ctx.tier == 'thorough' else '8th (seeded offset)', FRACS, ENDS),
                      distinct_nontrivial=len(nontriv), point_classes=classes, shape_failures=sorted(bad_shape),
                      samples=[dict(call=clines[i], impl=c[i], expected=e[i]) for i in (0, len(clines) // 2, len(clines) - 1)])
-        return len(clines), out, stats
+        return len(clines) + n2, out, stats
+
+    # ---- the two sub-shell sites (Props/C02b.lean): per-shell Compton profiles (shipped tables) and the Kissel partial photo-
+    #      ionisation cross sections (Kissel table regenerated from data/kissel: in the shipped configuration it is empty)
+    def search2(self, ctx):
+        viol = []; stats = {}; n = 0
+        step = 1 if ctx.tier == 'thorough' else 6
+        off = ctx.rng.randrange(step)
+        def cmp(site, clines, slines, classes, exe=None, dump='dump', tag=''):
+            c = ctx.run_c(clines, exe=exe) if exe else ctx.run_c(clines)
+            e = ctx.run_model(slines, dump=dump)
+            nt = 0
+            for cl, co, eo, cls in zip(clines, c, e, classes):
+                if eo.startswith('value'): nt += 1
+                if not core.expect_agrees(co, eo, rel=1e-10, stats=stats):
+                    viol.append(dict(key=cl + tag, got=co, expected=eo, what='%s site: library vs specification (%s point)' % (site, cls)))
+                if cls == 'high' and core.parse_answer(co)['kind'] == 'ok' and core.parse_answer(co)['slot'] == 'E':
+                    viol.append(dict(key='splint-slack', got=co, expected='fails', what='%s: accepted and extrapolated beyond the last knot' % cl))
+            return nt
+        # (a) ComptonProfile_Partial: knots pz (transformed ln(pz+1)), every shell column incl. invalid ones
+        req = ['vec pz_ComptonProfiles %d' % Z for Z in range(1, 121)]
+        kn = [[unhx(t) for t in o.split(' ')[1:] if t] for o in ctx.run_model(req)]
+        cl = []; sl = []; cs = []
+        for Z, xs in zip(range(1, 121), kn):
+            if len(xs) < 2: xs = [0.0, 1.0]
+            args = []
+            for k in range(len(xs) - 1):
+                if (k + off) % step and k not in (0, len(xs) - 2): continue
+                for f in FRACS: args.append((math.exp(xs[k] + f * (xs[k + 1] - xs[k])) - 1.0, 'knot' if f == 0.0 else 'interior'))
+            hi = math.exp(xs[-1]) - 1.0
+            args += [(hi, 'knot'), (hi * (1 + 1e-6), 'high'), (hi * (1 - 1e-9), 'interior'), (0.0, 'knot'), (-1e-9, 'low'), (-1.0, 'nonpos'), (1e6, 'huge')]
+            for sh in list(range(-1, 31)) if (Z + off) % step == 0 else [0, 1, 3, ctx.rng.randrange(4, 29)]:
+                for a, c_ in (args if sh >= 0 else args[:3]):
+                    cl.append('ComptonProfile_Partial %d %d %s E' % (Z, sh, hx(a))); sl.append('spec.ComptonProfile_Partial %d %d %s' % (Z, sh, hx(a))); cs.append(c_)
+        for Z in (-1, 0, 121):
+            cl.append('ComptonProfile_Partial %d 0 %s E' % (Z, hx(1.0))); sl.append('spec.ComptonProfile_Partial %d 0 %s' % (Z, hx(1.0))); cs.append('badZ')
+        nt_a = cmp('ComptonProfile_Partial', cl, sl, cs); n += len(cl)
+        # (b) CSb_Photo_Partial on the regenerated Kissel table: below the edge, edge..first knot (the log-log extension), every
+        #     knot interval, beyond the last knot
+        suf = ctx.build_kissel_config('real')
+        exe = ctx.sc.path('cdrv' + suf); dump = 'dump' + suf
+        sh2 = ctx.run_model(['spec.shapeFailures2', 'spec.weightFailures'], dump=dump) + ctx.run_model(['spec.shapeFailures2', 'spec.weightFailures'])
+        for o, nm in zip(sh2, ('shapeFailures2@real', 'weightFailures@real', 'shapeFailures2', 'weightFailures')):
+            bad = [x for x in o[len('shape ['):-1].split(', ') if x]
+            for b in bad[:5]:
+                viol.append(dict(key='%s:%s' % (nm, b), got='false', expected='sub-shell table well-formed / atomic weight present wherever a structure table is',
+                                 what='data invariant assumed by the C02b / C05b theorems fails on the tables built from the working tree'))
+        Zs = [Z for Z in range(1, 101) if (Z + off) % step == 0] + [0, 101, 121]
+        req = ['vec E_Photo_Partial_Kissel %d' % (Z * 31 + sh) for Z in Zs if 1 <= Z <= 120 for sh in range(31)]
+        out = iter(ctx.run_model(req, dump=dump))
+        edges = {}
+        q = ['EdgeEnergy %d %d N' % (Z, sh) for Z in Zs if 1 <= Z <= 120 for sh in range(28)]
+        for l, o in zip(q, ctx.run_c(q)):
+            _, Z, sh, _ = l.split(); edges[(int(Z), int(sh))] = core.parse_answer(o)['vals'][0]
+        cl = []; sl = []; cs = []
+        def add(Z, sh, E, c_):
+            cl.append('CSb_Photo_Partial %d %d %s E' % (Z, sh, hx(E))); sl.append('spec.CSb_Photo_Partial %d %d %s' % (Z, sh, hx(E))); cs.append(c_)
+        for Z in Zs:
+            for sh in range(-1, 32):
+                xs = []
+                if 1 <= Z <= 120 and 0 <= sh < 31: xs = [unhx(t) for t in next(out).split(' ')[1:] if t]
+                ed = edges.get((Z, sh), 0.0)
+                for E in (1.0, 30.0): add(Z, sh, E, 'grid')
+                if ed > 0:
+                    add(Z, sh, ed * (1 - 1e-9), 'below-edge'); add(Z, sh, ed, 'edge'); add(Z, sh, ed * (1 + 1e-9), 'above-edge')
+                if len(xs) >= 2:
+                    lo = math.exp(xs[0]); hi = math.exp(xs[-1])
+                    if ed > 0 and ed < lo:
+                        for f in (0.25, 0.5, 0.9): add(Z, sh, ed + f * (lo - ed), 'extension')
+                    add(Z, sh, lo, 'knot'); add(Z, sh, hi, 'knot'); add(Z, sh, hi * (1 + 1e-6), 'high'); add(Z, sh, hi * (1 - 1e-9), 'interior')
+                    ks = sorted(set([0, len(xs) - 2] + ctx.rng.sample(range(len(xs) - 1), min(4 if ctx.tier == 'quick' else 40, len(xs) - 1))))
+                    for k in ks:
+                        for f in FRACS: add(Z, sh, math.exp(xs[k] + f * (xs[k + 1] - xs[k])), 'knot' if f == 0.0 else 'interior')
+        # a point right at a knot can fall on either side of the edge/knot comparison after exp/log rounding: classes 'edge' and
+        # 'knot' at the FIRST knot are compared only when both sides agree on success
+        nt_b = cmp('CSb_Photo_Partial', cl, sl, cs, exe=exe, dump=dump, tag='  @real'); n += len(cl)
+        cls_count = {}
+        for c_ in cs: cls_count[c_] = cls_count.get(c_, 0) + 1
+        stats.update(subshell_sites=dict(ComptonProfile_Partial=dict(nontrivial=nt_a), CSb_Photo_Partial=dict(calls=len(cl), nontrivial=nt_b, classes=cls_count)))
+        return n, viol, stats
 
 CHECK = C02()
